@@ -24,8 +24,39 @@ package packetdump
 //@   modifies *
 //@   ensures forwarded_once: calls("writer.Write") == 1 && callarg("writer.Write", 0) == header && callarg("writer.Write", 1) == payload && callarg("writer.Write", 2) == attributes
 //@   ensures result_passed: result0 == callres("writer.Write", 0) && result1 == callres("writer.Write", 1)
+//@   ensures packet_unchanged_when_forwarded: (forall k int :: 0 <= k && k < len(payload) ==> atcall("writer.Write", payload[k]) == old(payload[k]))
+//@        && atcall("writer.Write", header.SequenceNumber) == old(header.SequenceNumber) && atcall("writer.Write", header.Timestamp) == old(header.Timestamp)
+//@        && atcall("writer.Write", header.SSRC) == old(header.SSRC) && atcall("writer.Write", header.PayloadType) == old(header.PayloadType)
+//@        && atcall("writer.Write", header.Marker) == old(header.Marker) && atcall("writer.Write", header.Padding) == old(header.Padding)
+//@        && atcall("writer.Write", header.CSRC) == old(header.CSRC) && atcall("writer.Write", header.Extensions) == old(header.Extensions)
+//@
+//@ iface PacketLogger.LogRTPPacket
+//@   ensures packet_untouched: (forall k int :: 0 <= k && k < len(payload) ==> payload[k] == old(payload[k]))
+//@        && header.SequenceNumber == old(header.SequenceNumber) && header.Timestamp == old(header.Timestamp) && header.SSRC == old(header.SSRC)
+//@        && header.PayloadType == old(header.PayloadType) && header.Marker == old(header.Marker) && header.Padding == old(header.Padding)
+//@        && header.Extension == old(header.Extension) && header.ExtensionProfile == old(header.ExtensionProfile)
+//@        && header.CSRC == old(header.CSRC) && header.Extensions == old(header.Extensions)
+//@
+//@ func (*defaultPacketLogger).LogRTPPacket
+//@   requires hdr: header != nil
+//@   modifies *
+//@   ensures packet_untouched: (forall k int :: 0 <= k && k < len(payload) ==> payload[k] == old(payload[k]))
+//@        && header.SequenceNumber == old(header.SequenceNumber) && header.Timestamp == old(header.Timestamp) && header.SSRC == old(header.SSRC)
+//@        && header.PayloadType == old(header.PayloadType) && header.Marker == old(header.Marker) && header.Padding == old(header.Padding)
+//@        && header.Extension == old(header.Extension) && header.ExtensionProfile == old(header.ExtensionProfile)
+//@        && header.CSRC == old(header.CSRC) && header.Extensions == old(header.Extensions)
 //@
 //@ func (*SenderInterceptor).BindRTCPWriter$1
 //@   modifies *
 //@   ensures forwarded_once: calls("writer.Write") == 1 && callarg("writer.Write", 0) == pkts && callarg("writer.Write", 1) == attributes
 //@   ensures result_passed: result0 == callres("writer.Write", 0) && result1 == callres("writer.Write", 1)
+//@   # the batch the next writer sees is the batch the application wrote: same packets, same order (logging does not edit it)
+//@   ensures batch_unchanged_when_forwarded: forall k int :: 0 <= k && k < len(pkts) ==> atcall("writer.Write", pkts[k]) == old(pkts[k])
+//@
+//@ # a packet logger only observes: it leaves the batch it is shown as it is (assumed of custom loggers, proved of the default one)
+//@ iface PacketLogger.LogRTCPPackets
+//@   ensures batch_untouched: forall k int :: 0 <= k && k < len(pkts) ==> pkts[k] == old(pkts[k])
+//@
+//@ func (*defaultPacketLogger).LogRTCPPackets
+//@   modifies *
+//@   ensures batch_untouched: forall k int :: 0 <= k && k < len(pkts) ==> pkts[k] == old(pkts[k])
